@@ -280,6 +280,8 @@ func Fuzz(f *testing.F) {
 	for _, seed := range [][]byte{{}, {0}, {0xff, 0xff, 0xff, 0xff, 0xff, 0xff, 0xff, 0xff}, []byte("0123456789abcdef0123456789abcdef")} {
 		f.Add(seed)
 	}
+	// (the long pseudo-random seeds of a campaign are corpus files written by pipeline.FuzzCase: a failing corpus
+	// file can be named and replayed, a failing f.Add seed cannot)
 	f.Fuzz(rapid.MakeFuzz(func(rt *rapid.T) { fn(rt, env) }))
 }
 
